@@ -9,6 +9,7 @@ return value = bytes written, exactly one draw(4) per frame.
 import common
 from common import summarize
 import session
+import simnet
 
 OPC = [0, 1, 2, 8, 9, 10]
 TEXTS = ["", "a", "héllo", "κόσμε", "😀", "a😀b" * 20, "߿ࠀ￿\U00010000\U0010ffff"]
@@ -95,66 +96,119 @@ def minimal(n):
     return 7 if n <= 125 else (16 if n <= 65535 else 64)
 
 
+def oracle_subset(c, rnd_val):
+    """which cases are also handed (whole wire) to the Lean Spec decoder; the rest are judged against an
+    independent Python encoder and, like all cases, compared with the model through summaries."""
+    n = c["n"]
+    return n <= 300 or 65400 <= n <= 65700 or rnd_val < 0.03
+
+
+def process_chunk(args):
+    """runs one chunk of cases; returns plain data (used in-process and in worker processes)."""
+    cases, seed, chunk_id = args
+    import random as _random
+    rr = _random.Random(f"{seed}:C01:oracle:{chunk_id}")
+    lines, impls, metas = [], [], []
+    for c in cases:
+        cfg = {"keys": [c["key"]]}
+        if c.get("acc"):
+            cfg["acc"] = c["acc"]
+        ops = [c["opstr"]] if "opstr" in c else [op_string(c)]
+        extra = {}
+        if "cfg" in c:
+            cfg = c["cfg"]
+        out, ws, sock = session.run_impl(cfg, [], ops, trace=c.get("trace", False), payload_type=c.get("ptype_fn", c.get("ptype", bytes)),
+                                         keymode=c["keymode"], extra=extra)
+        lines.append(session.line(cfg, [], ops))
+        impls.append(out)
+        wire = bytes(sock.sent)
+        payload = c["payload"] if "payload" in c else common.gen_bytes(c["n"], c["seed"])
+        metas.append((c, wire if oracle_subset(c, rr.random()) else None, len(wire), payload, extra["draw_args"], out,
+                      wire == simnet.srv_frame(c["op"], payload, c["fin"], 0, c["key"])))
+    dec_lines = ["s-decode-all " + (m[1].hex() or "-") for m in metas if m[1] is not None]
+    outs = common.run_driver(lines + dec_lines)
+    mo, dec = outs[:len(lines)], outs[len(lines):]
+    res = {"cases": [], "diverge": [], "violate": [], "samples": []}
+    di = 0
+    for (c, wire, wlen, payload, draws, out, py_ok), l, m in zip(metas, lines, mo):
+        n = c["n"]
+        if m != out:
+            res["diverge"].append(("session:send", l[:300], m[:300], out[:300]))
+        cls = (f"len={'0' if n == 0 else '1-125' if n <= 125 else '126-65535' if n <= 65535 else '65536+'}:op={c['op']}:fin={c['fin']}"
+               f":key={c['keymode']}:trace={int(c.get('trace', False))}:api={c['api']}")
+        res["cases"].append(((n, c["op"], c["fin"], c["keymode"], c["api"], bool(c.get("acc"))), n > 0, cls))
+        if n in (5, 126, 65536) and len(res["samples"]) < 2:
+            res["samples"].append({"op": l[:200], "impl": out[:160]})
+        first = out.split(";")[0].split("|")
+        ret = None
+        inp = {"op": l[:300], "keymode": c["keymode"], "trace": c.get("trace", False)}
+        if first[0].startswith("N:"):
+            ret = int(first[0][2:])
+        elif first[0].startswith("X:"):
+            res["violate"].append(("send-succeeds", "raises-" + first[0][2:], inp, "frame written", out[:200], n))
+            if wire is not None:
+                di += 1
+            continue
+        sub = common.Ctx("C01", "quick", seed)
+        if wire is not None:
+            judge_wire(sub, inp, dec[di], c["fin"], c["op"], payload, c["key"], ret if not c.get("noret") else None, wlen, draws, cls)
+            di += 1
+        else:
+            if not py_ok:
+                sub.violate("one-wellformed-masked-frame", "differs-from-independent-encoder", inp, "RFC frame of the request", f"{wlen} bytes", size=n)
+            if ret is not None and not c.get("noret") and ret != wlen:
+                sub.violate("return-value-is-bytes-written", "wrong-return", inp, str(wlen), str(ret), size=n)
+            if draws != [4]:
+                sub.violate("key-drawn-once-per-frame", "draws=" + ",".join(map(str, draws))[:20], inp, "[4]", str(draws), size=n)
+        for v in sub.violations:
+            res["violate"].append((v["clause"], v["cause"], v["input"], v["expected"], v["observed"], v["size"]))
+    return res
+
+
 def run(ctx):
     ctx.rule = ("one send per case: payload length (quick: 0..300, 65400..65700, 40 random; thorough: every 0..70000 + "
                 "sampled to 2^22) x opcode (all six when <=125 bytes) x FIN x key source (set_mask_key bytes / ASCII str / "
                 "default os.urandom, recorded) x bytes|bytearray x trace on/off x api (send, ping, pong, send_frame); "
-                "str payloads; close()/send_close(); short-write patterns. non-trivial = length > 0")
+                "str payloads; close()/send_close(); short-write patterns. Every case: model vs implementation through wire "
+                "summaries (length, CRC-32 of the whole wire, first/last 32 bytes) + independent Python encoder; the Lean Spec "
+                "decoder reads the whole real wire for lengths <= 300, 65400..65700 and a 3% sample. non-trivial = length > 0")
     cases = build_cases(ctx)
-    lines, impls, metas = [], [], []
-    for c in cases:
-        cfg = {"keys": [c["key"]]}
-        if c["acc"]:
-            cfg["acc"] = c["acc"]
-        ops = [op_string(c)]
-        extra = {}
-        out, ws, sock = session.run_impl(cfg, [], ops, trace=c["trace"], payload_type=c["ptype"],
-                                         keymode=c["keymode"], extra=extra)
-        lines.append(session.line(cfg, [], ops))
-        impls.append(out)
-        payload = common.gen_bytes(c["n"], c["seed"])
-        metas.append((c, bytes(sock.sent), payload, extra["draw_args"], out))
     # text (str) payloads, close frames
     for i, t in enumerate(TEXTS):
         for api in ("send", "sendf0"):
-            cfg = {"keys": [b"kEy" + bytes([65 + i])]}
             tb = t.encode("utf-8")
-            ops = [f"send:1:{tb.hex() or '-'}"] if api == "send" else [f"sendf:0:1:{tb.hex() or '-'}"]
-            extra = {}
-            out, ws, sock = session.run_impl(cfg, [], ops, payload_type=lambda b: b.decode("utf-8"), keymode="strkey", extra=extra)
-            lines.append(session.line(cfg, [], ops))
-            impls.append(out)
-            metas.append(({"n": len(tb), "op": 1, "fin": 1 if api == "send" else 0, "key": cfg["keys"][0], "api": "text-str",
-                           "keymode": "strkey", "trace": False, "acc": None, "seed": 0}, bytes(sock.sent), tb, extra["draw_args"], out))
+            cases.append({"n": len(tb), "op": 1, "fin": 1 if api == "send" else 0, "key": b"kEy" + bytes([65 + i]), "api": "text-str",
+                          "keymode": "strkey", "trace": False, "acc": None, "seed": 0, "payload": tb,
+                          "opstr": f"send:1:{tb.hex() or '-'}" if api == "send" else f"sendf:0:1:{tb.hex() or '-'}", "ptype_fn": _to_str})
     for status, reason in [(1000, b""), (1001, b"bye"), (4999, "grüß".encode()), (0, b""), (65535, b"x" * 123)]:
         for api in ("sclose", "close"):
-            cfg = {"keys": [b"\xaa\xbb\xcc\xdd"], "tail": "timeout", "to": 1000}
-            ops = [f"sclose:{status}:{reason.hex() or '-'}"] if api == "sclose" else [f"close:{status}:{reason.hex() or '-'}:100"]
-            extra = {}
-            out, ws, sock = session.run_impl(cfg, [], ops, extra=extra)
-            lines.append(session.line(cfg, [], ops))
-            impls.append(out)
-            metas.append(({"n": 2 + len(reason), "op": 8, "fin": 1, "key": cfg["keys"][0], "api": api, "keymode": "script",
-                           "trace": False, "acc": None, "seed": 0, "noret": True}, bytes(sock.sent), status.to_bytes(2, "big") + reason,
-                          extra["draw_args"], out))
-    dec_lines = ["s-decode-all " + (m[1].hex() or "-") for m in metas]
-    outs = common.run_driver_parallel(lines + dec_lines)
-    mo, dec = outs[:len(lines)], outs[len(lines):]
-    common.compare_streams(ctx, "session:send", lines, mo, impls)
-    for (c, wire, payload, draws, out), d, l in zip(metas, dec, lines):
-        n = c["n"]
-        cls = f"len={'0' if n == 0 else '1-125' if n <= 125 else '126-65535' if n <= 65535 else '65536+'}:op={c['op']}:fin={c['fin']}:key={c['keymode']}:trace={int(c['trace'])}:api={c['api']}"
-        ctx.case(key=(n, c["op"], c["fin"], c["keymode"], c["api"], bool(c["acc"])), nontrivial=n > 0, cls=cls,
-                 sample={"op": l, "impl": out[:160]} if len(ctx.samples) < 6 and n in (5, 126, 65536) else None)
-        first = out.split(";")[0].split("|")
-        ret = None
-        if first[0].startswith("N:"):
-            ret = int(first[0][2:])
-        elif first[0].startswith("X:"):
-            ctx.violate("send-succeeds", "raises-" + first[0][2:], {"op": l}, "frame written", out[:200], size=n)
-            continue
-        judge_wire(ctx, {"op": l, "keymode": c["keymode"], "trace": c["trace"]}, d, c["fin"], c["op"], payload,
-                   c["key"], ret if not c.get("noret") else None, len(wire), draws, cls)
+            cases.append({"n": 2 + len(reason), "op": 8, "fin": 1, "key": b"\xaa\xbb\xcc\xdd", "api": api, "keymode": "script",
+                          "trace": False, "acc": None, "seed": 0, "noret": True, "payload": status.to_bytes(2, "big") + reason,
+                          "cfg": {"keys": [b"\xaa\xbb\xcc\xdd"], "tail": "timeout", "to": 1000},
+                          "opstr": f"sclose:{status}:{reason.hex() or '-'}" if api == "sclose" else f"close:{status}:{reason.hex() or '-'}:100"})
+    size = 400
+    chunks = [(cases[i:i + size], ctx.seed, i // size) for i in range(0, len(cases), size)]
+    if ctx.thorough() and len(chunks) > 8:
+        import multiprocessing
+        with multiprocessing.Pool(16) as pool:
+            results = list(pool.imap(process_chunk, chunks))
+    else:
+        results = [process_chunk(ch) for ch in chunks]
+    for res in results:
+        for key, nontriv, cls in res["cases"]:
+            ctx.case(key=key, nontrivial=nontriv, cls=cls)
+        for s_ in res["samples"]:
+            if len(ctx.samples) < 6:
+                ctx.samples.append(s_)
+        for op, inp, m, o in res["diverge"]:
+            ctx.diverge(op, inp, m, o)
+        for clause, cause, inp, exp, obs, size_ in res["violate"]:
+            ctx.violate(clause, cause, inp, exp, obs, size=size_)
+        ctx.traces_vs_impl += len(res["cases"])
+
+
+def _to_str(b):
+    return bytes(b).decode("utf-8")
 
 
 def search(ctx):
